@@ -13,6 +13,7 @@ quantifier of C13 ("non-conflicting writes").
 from __future__ import annotations
 
 import itertools
+import json
 import random
 
 from lib import common
@@ -282,7 +283,11 @@ def _cases(chk) -> list[dict]:
     rnd = random.Random(chk.seed)
     quick = chk.tier == "quick"
     cases = []
-    # corpus-like fixed witnesses first (one per theorem clause / finding)
+    for f in sorted((common.CORPUS / "C13").glob("*.json")):
+        c = json.loads(f.read_text())
+        c["init"] = [[tuple(r) for r in t] for t in c["init"]]
+        cases.append(c)
+    # fixed witnesses first (one per theorem clause / finding)
     fixed = [
         (CORE_SCRIPTS[0], CORE_SCRIPTS[3]), (CORE_SCRIPTS[1], CORE_SCRIPTS[0]), (CORE_SCRIPTS[5], CORE_SCRIPTS[3]),
         (FINDING_SCRIPTS[0], CORE_SCRIPTS[10]), (FINDING_SCRIPTS[1], CORE_SCRIPTS[10]),
@@ -313,7 +318,7 @@ def _cases(chk) -> list[dict]:
         for order in _interleavings(len(a), len(b)):
             cases.append(dict(_pair_case(rnd, a, b, order, "dense", False, rnd.randrange(1 << 30)), gen="finding-pairs"))
     # C. random histories, 2-3 connections, in and out of the envelope
-    nrand = 300 if quick else 12000
+    nrand = 300 if quick else 6000
     for i in range(nrand):
         nconn = rnd.choice([2, 3, 3])
         cases.append(dict(_random_case(rnd, nconn, rnd.randint(3, 9), envelope=(i % 5 != 0), spell=rnd.randrange(1 << 30)), gen="random"))
